@@ -16,7 +16,7 @@ func init() {
 		Patterns: []string{"./pkg/upstream/cluster", "./pkg/upstream/healthcheck"},
 		Explanation: "(R1) atomic read-modify-write detector: a value obtained by atomic.Load*(p) that flows through arithmetic into atomic.Store*(p) on the same address is a lost-update hazard under any interleaving of two writers; accepted forms are a CompareAndSwap retry loop, atomic.Or/And, or both under one mutex. Applied to every function of the health packages (quick) and the whole module (thorough). " +
 			"(R2) shape of the flag algebra: Set writes old|mask, Clear writes old&^mask through the pointer parameter, the CAS's expected value is the very load it derived the new word from and failure loops back; Health() compares the whole word with 0; ContainHealthFlag masks. " +
-			"(R3) threshold automaton of the active checker: the opposite counter is reset on every result, the own counter is incremented only in the opposite state, compared (== or >=) with the configured threshold after the increment, and the flag flip and changed=true share one block; `changed` reaches both callbacks; per received result exactly one of HandleSuccess/HandleFailure runs and stale ids are ignored.",
+			"(R3) threshold automaton of the active checker: the opposite counter is reset on every result, the own counter is incremented only in the opposite state, compared (== or >=) with the configured threshold after the increment, and the flag flip and changed=true share one block; `changed` reaches both callbacks; per received result exactly one of HandleSuccess/HandleFailure runs and stale ids are ignored. (R4) GetHealthFlagPointer returns on every path the value Load/LoadOrStore returned; the registry is append-only; every store to simpleHost.healthFlags stores GetHealthFlagPointer(a) with a the value stored to addressString of the same object.",
 		Run:      runC16,
 		Thorough: c16Thorough,
 	})
@@ -129,6 +129,7 @@ func runC16(c *Ctx) {
 	c.Rule("C16.R3", "threshold automaton shape of the active health checker", 14)
 	c.Rule("C16.R4", "the health word of an address is the registry entry (get-or-create returns the stored value)", 1)
 	defer c16SharedWord(c)
+	defer c16WordOfOwnAddress(c)
 	defer healthRegistryAppendOnly(c, "C16.R4")
 	c.NotDecided = append(c.NotDecided, "timing of checker goroutines and timers", "behaviour of concrete interleavings (only the structural impossibility of a lost update)")
 	c.Assumptions = append(c.Assumptions, "sync/atomic semantics; sessionChecker counters are confined to the checker's own goroutine (Start loop)")
@@ -671,4 +672,65 @@ func healthRegistryAppendOnly(c *Ctx, rule string) {
 		pos = bad.Pos()
 	}
 	c.Check(rule, "pkg/upstream/cluster.healthStore:append-only", pos, bad == nil && n >= 1, fmt.Sprintf("%d accesses, all Load/LoadOrStore", n), "the per-address health registry is modified by "+badName+": an address can get a second health word, so the object the health checker marks and the object the load balancer consults stop sharing their conditions - an unhealthy host keeps being returned (and conditions set through one host object are lost for the others)")
+}
+
+// c16WordOfOwnAddress (R4): a host object's health word is the registry entry of the host's own address.
+// The word is shared per address; a host built with the word of a different string (the configured host name instead of
+// the resolved address, the cluster name, a word allocated on the spot) reports health that belongs to somebody else, or
+// to nobody. Clause: every store to simpleHost.healthFlags stores GetHealthFlagPointer(a) where a is the very value
+// stored to addressString of the same object; nothing else ever writes the field.
+func c16WordOfOwnAddress(c *Ctx) {
+	pkg := "pkg/upstream/cluster"
+	n := 0
+	ord := ordCounter{}
+	for _, fn := range c.PkgFuncs(pkg) {
+		forEachInstr(fn, false, func(f *ssa.Function, in ssa.Instruction) {
+			st, ok := in.(*ssa.Store)
+			if !ok {
+				return
+			}
+			tn, fld, base, okf := fieldAddrInfo(st.Addr)
+			if !okf || fld != "healthFlags" || !strings.HasSuffix(tn, "pkg/upstream/cluster.simpleHost") {
+				return
+			}
+			n++
+			key := ord.next(f, "word-of-own-address")
+			good, why := false, "the stored value is not GetHealthFlagPointer(...)"
+			if call, isC := st.Val.(*ssa.Call); isC {
+				if cal := call.Common().StaticCallee(); cal != nil && cal.Name() == "GetHealthFlagPointer" && len(call.Common().Args) == 1 {
+					arg := call.Common().Args[0]
+					why = "its argument is not the value stored to addressString of the same object"
+					for _, r := range refs(base) {
+						fa, isFA := r.(*ssa.FieldAddr)
+						if !isFA {
+							continue
+						}
+						if _, g, _, okg := fieldAddrInfo(fa); !okg || g != "addressString" {
+							continue
+						}
+						for _, rr := range refs(fa) {
+							if s2, isS := rr.(*ssa.Store); isS && s2.Addr == ssa.Value(fa) && sameValue(s2.Val, arg) {
+								good, why = true, "GetHealthFlagPointer(addressString)"
+							}
+						}
+					}
+				}
+			}
+			c.Check("C16.R4", key, st.Pos(), good, why, "a host object's health word is not the registry entry of its own address ("+why+"): its health is shared with the wrong hosts or with none, so marking the address unhealthy does not take this host out of rotation")
+		})
+	}
+	if n < 2 {
+		c.Unresolved("C16.R4", "stores to simpleHost.healthFlags (expected the two constructors)")
+	}
+}
+
+// sameValue: the same SSA value, or two reads of the same field of the same (spilled) variable. Interleaved writes are
+// not considered: the callers use it on constructor arguments that are never reassigned.
+func sameValue(a, b ssa.Value) bool {
+	if a == b || sameLoad(a, b) {
+		return true
+	}
+	fa, ok1 := a.(*ssa.Field)
+	fb, ok2 := b.(*ssa.Field)
+	return ok1 && ok2 && fa.Field == fb.Field && sameValue(fa.X, fb.X)
 }
